@@ -1,7 +1,7 @@
 (* C01 — linking returns a valid labelling and preserves the caller's rows. *)
 From Coq Require Import ZArith List Permutation.
-From TP Require Import Model.Assign Model.Link Model.LinkTable
-     Proofs.Cands Proofs.Labels Proofs.LinkTable.
+From TP Require Import Model.Assign Model.Link Model.LinkTable Model.CoordsFromDf
+     Proofs.Cands Proofs.Labels Proofs.LinkTable Proofs.CoordsFromDf.
 Import ListNotations.
 Open Scope Z_scope.
 
@@ -44,6 +44,14 @@ Theorem C01_missing_frames_are_steps : forall rows n t k fr r,
   nth_error (frames_from t n rows) k = Some fr -> In r fr -> r_frame r = t + Z.of_nat k.
 Proof. exact frames_from_frame. Qed.
 Print Assumptions C01_missing_frames_are_steps.
+
+(* coords_from_df as the code computes it (stable argsort, np.unique / np.split runs,
+   walk over range(first, last+1) with an index into the runs) hands the linker, for
+   every frame number from the smallest to the largest, exactly the rows of that frame
+   in input order - empty steps for missing numbers. *)
+Theorem C01_coords_from_df : forall rows, coords_from_df rows = table_frames rows.
+Proof. exact coords_from_df_spec. Qed.
+Print Assumptions C01_coords_from_df.
 
 (* non-vacuity: the initial state of any first frame is ok *)
 Example C01_init_ok : forall mem ds, state_ok mem (fst (init_state ds)).
